@@ -2,6 +2,7 @@ package main
 
 import (
 	"runtime/pprof"
+	"strconv"
 	"flag"
 	"fmt"
 	"os"
@@ -45,6 +46,14 @@ func main() {
 		f, _ := os.Create(pf)
 		pprof.StartCPUProfile(f)
 		defer pprof.StopCPUProfile()
+		if ms := os.Getenv("GV_MAXSEC"); ms != "" {
+			n, _ := strconv.Atoi(ms)
+			go func() {
+				time.Sleep(time.Duration(n) * time.Second)
+				pprof.StopCPUProfile()
+				os.Exit(3)
+			}()
+		}
 	}
 	switch os.Args[1] {
 	case "dump":
@@ -95,8 +104,8 @@ func main() {
 			for k, w := range sum.Writes {
 				lines = append(lines, fmt.Sprintf("  write %-40s %-30s %s", k.Field, objName(fn, k.Obj), strings.Join(w.Chain, " > ")))
 			}
-			for k, w := range sum.Links {
-				lines = append(lines, fmt.Sprintf("  link  %-40s %s <- %s   %s", k.Field, objName(fn, k.To), objName(fn, k.From), strings.Join(w.Chain, " > ")))
+			for k, c := range sum.Links {
+				lines = append(lines, fmt.Sprintf("  link  %-40s %s <- %s", k.Field, objName(fn, k.Obj), c.String()))
 			}
 			for site, mm := range sum.SiteContent {
 				for f, c := range mm {
@@ -122,8 +131,8 @@ func main() {
 							ls = append(ls, fmt.Sprintf("     site %s@%s .%-30s %s", site.Name(), ld.posString(site.Pos()), f, c.String()))
 						}
 					}
-					for lk := range s2.Links {
-						ls = append(ls, fmt.Sprintf("     link %-30s %s <- %s", lk.Field, objName(k.fn, lk.To), objName(k.fn, lk.From)))
+					for lk, c := range s2.Links {
+						ls = append(ls, fmt.Sprintf("     link %-30s %s <- %s", lk.Field, objName(k.fn, lk.Obj), c.String()))
 					}
 					sort.Strings(ls)
 					for _, l := range ls {
